@@ -38,38 +38,6 @@ Qed.
 Lemma nodes_sorted_in g n : In n (nodes_sorted g) <-> In n (gnodes g).
 Proof. unfold nodes_sorted. apply isort_in. Qed.
 
-Lemma lookup_meta_set_eq k v m : lookup k (meta_set k v m) = Some v.
-Proof.
-  induction m as [|[k' v'] m IH]; simpl.
-  - rewrite name_eqb_refl. reflexivity.
-  - destruct (name_eqb_spec k k') as [->|Hn]; simpl.
-    + rewrite name_eqb_refl. reflexivity.
-    + destruct (name_ltb k k'); simpl.
-      * rewrite name_eqb_refl. reflexivity.
-      * destruct (name_eqb_spec k k'); [contradiction|exact IH].
-Qed.
-
-Lemma lookup_meta_set_neq k k2 v m : k2 <> k -> lookup k2 (meta_set k v m) = lookup k2 m.
-Proof.
-  intros Hn. induction m as [|[k' v'] m IH]; simpl.
-  - destruct (name_eqb_spec k2 k); [contradiction|reflexivity].
-  - destruct (name_eqb_spec k k') as [->|Hn']; simpl.
-    + destruct (name_eqb_spec k2 k'); [contradiction|reflexivity].
-    + destruct (name_ltb k k'); simpl.
-      * destruct (name_eqb_spec k2 k); [contradiction|reflexivity].
-      * destruct (name_eqb k2 k'); [reflexivity|exact IH].
-Qed.
-
-Lemma set_tags_var v l m : meta_var (set_tags v l m) = Some v.
-Proof. unfold meta_var, meta_get, set_tags. rewrite lookup_meta_set_eq. reflexivity. Qed.
-
-Lemma set_tags_lag v l m : meta_lag (set_tags v l m) = Some l.
-Proof.
-  unfold meta_lag, meta_get, set_tags.
-  rewrite lookup_meta_set_neq; [|vm_compute; discriminate].
-  rewrite lookup_meta_set_eq. reflexivity.
-Qed.
-
 (** the node triple [Skeleton.nodes] rebuilds from a stored node *)
 Definition sk_node_of (parse : name -> option (name * Z)) (k : kind) (n : node) : node3 :=
   (nid n, nvt n,
@@ -634,130 +602,6 @@ Section WithGraphInvSk.
 End WithGraphInvSk.
 
 (** * Rebuilding a skeleton with the graph's own class (plain or time-series) *)
-
-Lemma find_node_app id l1 l2 :
-  find_node id (l1 ++ l2)
-  = match find_node id l1 with Some n => Some n | None => find_node id l2 end.
-Proof.
-  induction l1 as [|x l1 IH]; simpl; [reflexivity|].
-  destruct (name_eqb id (nid x)); [reflexivity|exact IH].
-Qed.
-
-Lemma find_node_update f id x ns :
-  (forall n, nid (f n) = nid n) ->
-  find_node x (update_node f id ns)
-  = match find_node x ns with
-    | Some n => Some (if name_eqb id (nid n) then f n else n)
-    | None => None
-    end.
-Proof.
-  intros Hf. induction ns as [|n ns IH]; simpl; [reflexivity|].
-  destruct (name_eqb id (nid n)) eqn:E.
-  - rewrite Hf. destruct (name_eqb x (nid n)); [rewrite E; reflexivity|exact IH].
-  - destruct (name_eqb x (nid n)); [rewrite E; reflexivity|exact IH].
-Qed.
-
-Lemma insert_edge_lag g e x : node_lag (insert_edge g e) x = node_lag g x.
-Proof.
-  unfold node_lag, get_node, insert_edge; simpl.
-  destruct (etype_eqb (ety e) Dir); [|reflexivity].
-  rewrite !find_node_update by (intros n; reflexivity).
-  destruct (find_node x (gnodes g)) as [n|]; [|reflexivity].
-  destruct (name_eqb (edst e) (nid n)); simpl; destruct (name_eqb (esrc e) _); reflexivity.
-Qed.
-
-Section AnyClass.
-  Variable parse : name -> option (name * Z).
-  Variable fmt : name -> Z -> option name.
-  Variable k : kind.
-
-  Definition has_lag (g : graph) (x : name) : Prop := exists l, node_lag g x = Some l.
-
-  Lemma add_node_any g id :
-    ~ In id (node_ids g) -> (k = TS -> exists v l, parse id = Some (v, l)) ->
-    exists g', add_node_id parse k g id VUnspec None = Ok g'
-               /\ node_ids g' = node_ids g ++ [id] /\ gsrc g' = gsrc g
-               /\ (k = TS -> has_lag g' id)
-               /\ (forall x, In x (node_ids g) -> node_lag g' x = node_lag g x).
-  Proof.
-    intros Hfresh Hparse.
-    assert (Hne : node_exists g id = false)
-      by (apply not_true_is_false; rewrite node_exists_in; exact Hfresh).
-    assert (Hold : forall n x, nid n = id -> In x (node_ids g) ->
-              match find_node x (gnodes g ++ [n]) with
-              | Some n0 => meta_lag (nmeta n0) | None => None end
-              = match find_node x (gnodes g) with
-                | Some n0 => meta_lag (nmeta n0) | None => None end).
-    { intros n x Hn Hx. rewrite find_node_app.
-      destruct (find_node x (gnodes g)) as [n0|] eqn:E; [reflexivity|].
-      apply find_node_none in E. contradiction. }
-    unfold add_node_id. destruct k.
-    - rewrite Hne. cbn [mk_node bind]. eexists. split; [reflexivity|].
-      split; [unfold node_ids, push_node; simpl; rewrite map_app; reflexivity|].
-      split; [reflexivity|]. split; [discriminate|].
-      intros x Hx. unfold node_lag, get_node, push_node; simpl. apply Hold; [reflexivity|exact Hx].
-    - destruct (Hparse eq_refl) as (v & l & Hp). unfold mk_node. rewrite Hp. cbn [bind]. rewrite Hne.
-      cbn [nmeta bind]. unfold idx_add. cbn [nmeta nid]. rewrite set_tags_lag, set_tags_var.
-      eexists. split; [reflexivity|].
-      split; [unfold node_ids, push_node; simpl; rewrite map_app; reflexivity|].
-      split; [reflexivity|]. split.
-      + intros _. exists l. unfold node_lag, get_node; simpl. rewrite find_node_app.
-        replace (find_node id (gnodes g)) with (@None node)
-          by (symmetry; apply find_node_none; exact Hfresh).
-        simpl. rewrite name_eqb_refl. simpl. apply set_tags_lag.
-      + intros x Hx. unfold node_lag, get_node; simpl. apply Hold; [reflexivity|exact Hx].
-  Qed.
-
-  Lemma add_nodes_any ids : forall g,
-    NoDup ids -> (forall x, In x ids -> ~ In x (node_ids g)) ->
-    (k = TS -> forall x, In x ids -> exists v l, parse x = Some (v, l)) ->
-    exists g', add_nodes_from parse k g ids = (Ok g', g')
-               /\ node_ids g' = node_ids g ++ ids /\ gsrc g' = gsrc g
-               /\ (k = TS -> forall x, In x ids -> has_lag g' x)
-               /\ (forall x, In x (node_ids g) -> node_lag g' x = node_lag g x).
-  Proof.
-    unfold add_nodes_from.
-    induction ids as [|id ids IH]; intros g Hnd Hfresh Hparse.
-    - exists g. simpl. rewrite app_nil_r. repeat split; auto. intros _ x [].
-    - inversion Hnd as [|? ? Hid Hnd']; subst. cbn [fold_left].
-      destruct (@add_node_any g id (Hfresh id (or_introl eq_refl))) as (g1 & Hg1 & Hn1 & Hs1 & Hl1 & Ho1).
-      { intros Hk. apply (Hparse Hk). left; reflexivity. }
-      rewrite Hg1.
-      destruct (IH g1 Hnd') as (g' & Hg' & Hn' & Hs' & Hl' & Ho').
-      + intros y Hy. rewrite Hn1, in_app_iff. intros [H|[H|[]]];
-          [apply (Hfresh y (or_intror Hy)); exact H|subst y; contradiction].
-      + intros Hk y Hy. apply (Hparse Hk). right; exact Hy.
-      + exists g'. split; [exact Hg'|]. split; [rewrite Hn', Hn1, <- app_assoc; reflexivity|].
-        split; [congruence|]. split.
-        * intros Hk x [<-|Hx]; [|apply (Hl' Hk); exact Hx].
-          destruct (Hl1 Hk) as [l Hl]. exists l. rewrite Ho'; [exact Hl|].
-          rewrite Hn1, in_app_iff. right; left; reflexivity.
-        * intros x Hx. rewrite Ho'; [apply Ho1; exact Hx|]. rewrite Hn1, in_app_iff. left; exact Hx.
-  Qed.
-
-  (** adding an undirected edge between two existing, not yet joined nodes: the time-series
-      class may store it with its endpoints exchanged, never refuses it *)
-  Lemma add_edge_und_any g s d :
-    In s (node_ids g) -> In d (node_ids g) -> s <> d ->
-    ~ In (s, d) (edge_keys g) -> ~ In (d, s) (edge_keys g) ->
-    (k = TS -> has_lag g s /\ has_lag g d) ->
-    exists s' d', add_edge_op parse fmt k g s d Und = Ok (insert_edge g (mk_edge s' d' Und))
-                  /\ ((s', d') = (s, d) \/ (s', d') = (d, s)).
-  Proof.
-    intros Hs Hd Hne H1 H2 Hlag.
-    unfold add_edge_op, run_op, add_edge, add_edge_try. cbn [fst snd str_ep].
-    apply name_eqb_neq in Hne. rewrite Hne.
-    apply edge_at_none in H1. apply edge_at_none in H2. rewrite H1.
-    unfold add_endpoint, str_ep. cbn [fst snd].
-    rewrite (proj2 (node_exists_in g s) Hs), (proj2 (node_exists_in g d) Hd).
-    unfold orient. destruct k.
-    - exists s, d. unfold set_edge. rewrite H1, H2. split; [reflexivity|left; reflexivity].
-    - destruct (Hlag eq_refl) as [[ls Hls] [ld Hld]]. rewrite Hls, Hld.
-      destruct (ld <? ls)%Z; cbn [etype_eqb].
-      + exists d, s. unfold set_edge. rewrite H2, H1. split; [reflexivity|right; reflexivity].
-      + exists s, d. unfold set_edge. rewrite H1, H2. split; [reflexivity|left; reflexivity].
-  Qed.
-End AnyClass.
 
 Section SymLoop.
   Variable parse : name -> option (name * Z).
